@@ -56,7 +56,7 @@ class LinTSLearner(Learner):
             raise CobaException("Sparse data cannot be handled by this implementation at this time.")
 
         if not context:
-            self._X_encoder = InteractionsEncoder(list(set(filter(None,[ f.replace('x','') if isinstance(f,str) else f for f in self._X ]))))
+            self._X_encoder = InteractionsEncoder(list(dict.fromkeys(filter(None,[ f.replace('x','') if isinstance(f,str) else f for f in self._X ]))))
 
         d  = len(self._X_encoder.encode(x=context or [],a=action))
         np = __import__('numpy')
